@@ -523,6 +523,38 @@ fn step(w: &mut World, ctx: &mut Ctx, st: &Step) -> StepResult {
                 _ => StepResult::Refused,
             }
         }
+        "ForeignShares" => {
+            // share assertions as another SSKR user of the same library would attach them: valid shares that meet
+            // their threshold, but of a secret that is not a 32-byte content key (SSKR splits any even length from
+            // 16 to 32 bytes), on envelopes whose subject may or may not be encrypted
+            let len = [16usize, 18, 24, 30, 32][(st.arg(1) % 5) as usize];
+            let secret = match bc_components::SSKRSecret::new(&vec![0x5au8; len]) {
+                Ok(s) => s,
+                Err(_) => return StepResult::Skipped,
+            };
+            let spec = match if st.arg(2) % 2 == 0 { bc_components::SSKRGroupSpec::new(1, 1) } else { bc_components::SSKRGroupSpec::new(2, 3) }.and_then(|g| bc_components::SSKRSpec::new(1, vec![g])) {
+                Ok(s) => s,
+                Err(_) => return StepResult::Skipped,
+            };
+            let shares = match bc_rand::verif_with_temp_seed(crate::model::sha(&st.arg(3).to_le_bytes()), || bc_components::sskr_generate(&spec, &secret)) {
+                Ok(s) => s,
+                Err(_) => return StepResult::Skipped,
+            };
+            let carrier = if st.arg(3) % 2 == 0 { env.encrypt_subject(&sym_key(1)).unwrap_or_else(|_| env.clone()) } else { env.clone() };
+            let holders: Vec<Envelope> = shares[0].iter().map(|sh| carrier.add_assertion(known_values::SSKR_SHARE, sh.clone())).collect();
+            let delivered: Vec<Envelope> = holders.iter().filter_map(|h| match decode_guarded(&h.to_cbor_data()) { Decoded::Ok(d) => Some(d), _ => None }).collect();
+            if delivered.is_empty() {
+                return StepResult::Refused;
+            }
+            ctx.checked();
+            ctx.probe("shares-of-a-foreign-secret");
+            let refs: Vec<&Envelope> = delivered.iter().collect();
+            match guarded(|| Envelope::sskr_join(&refs).is_ok()) {
+                Ok(_) => {}
+                Err(p) => ctx.violate_sig("C16.no-panic", format!("sskr_join panicked on threshold-meeting shares of a {}-byte secret: {}", len, p), p),
+            }
+            push_plain(w, ctx, delivered[0].clone(), "ForeignShares")
+        }
         "DateLeaf" => {
             // a date leaf outside chrono's range, as a decoder would deliver it (known finding D7 territory)
             let vals = ["f9fc00", "f97c00", "fb7e37e43c8800759c", "1b0000ffffffffffff", "f97e00"];
@@ -582,7 +614,7 @@ pub fn run(scn: &Scenario, ctx: &mut Ctx) {
     for (i, st) in scn.steps.iter().enumerate() {
         ctx.step = i;
         ctx.sim_ticks += 1;
-        let r = if st.op.starts_with("Deco") || st.op == "Adversarial" || st.op == "Call" || st.op == "DateLeaf" || st.op == "MalformedTyped" { step(&mut w, ctx, st) } else { hist::exec_step(&mut w, ctx, st) };
+        let r = if st.op.starts_with("Deco") || st.op == "Adversarial" || st.op == "Call" || st.op == "DateLeaf" || st.op == "MalformedTyped" || st.op == "ForeignShares" { step(&mut w, ctx, st) } else { hist::exec_step(&mut w, ctx, st) };
         if !matches!(r, StepResult::Skipped) {
             ctx.executed += 1;
         }
@@ -624,6 +656,9 @@ pub fn generate(property: &str, r: &mut SimRng, seed: u64) -> Scenario {
     }
     if property == "C16" && r.chance(1, 6) {
         scn.push("MalformedTyped", &[ds(r), r.below(4), r.below(4), r.below(2)]);
+    }
+    if property == "C16" && r.chance(1, 12) {
+        scn.push("ForeignShares", &[ds(r), r.below(5), r.below(2), r.next() % 1000]);
     }
     if property == "C16" && r.chance(1, 25) {
         scn.push("DateLeaf", &[ds(r), r.below(5), r.below(2)]);
